@@ -10,6 +10,7 @@ import (
 	"github.com/sarchlab/akita/v5/tracing"
 
 	"verif/props/emem"
+	"verif/props/enoc"
 	"verif/props/evm"
 	"verif/props/tracelog"
 	"verif/sim/kit"
@@ -35,6 +36,7 @@ type T33 struct {
 	Mem   *emem.Config    `json:"mem,omitempty"`
 	Steps []emem.CtrlStep `json:"steps,omitempty"`
 	VM    *evm.Cfg        `json:"vm,omitempty"`
+	Net   *enoc.Net       `json:"net,omitempty"`
 	Obs   Obs             `json:"obs"`
 }
 
@@ -184,6 +186,34 @@ func run33(c T33, o Obs) outcome33 {
 		return res
 	}
 
+	if c.Net != nil {
+		w := enoc.Build(c.Net)
+		w.Bare = !o.any()
+		ports := map[string]messaging.Port{}
+
+		for _, p := range w.Reg.Ports {
+			if mp, ok := p.(messaging.Port); ok {
+				ports[mp.Name()] = mp
+			}
+		}
+
+		o.attach(w.Eng, w.Domains(), ports, &res.hookRan)
+		w.Run()
+
+		for _, r := range w.Recvs {
+			res.lines = append(res.lines, fmt.Sprintf("R dev=%d port=%d t=%d %s %+v", r.Dev, r.Port, r.Time, r.Kind, r.Meta))
+		}
+
+		if w.V != nil {
+			res.lines = append(res.lines, "VIOLATION "+w.V.Sig)
+		}
+
+		res.lines = append(res.lines, "MEM -")
+		res.now, res.events, res.capHit = uint64(w.Eng.CurrentTime()), w.Events, w.CapHit
+
+		return res
+	}
+
 	evm.NoEngineHook = !o.any()
 	evm.ExtraAttach = func(w *evm.World) {
 		o.attach(w.Eng, w.Domains(), w.Ports, &res.hookRan)
@@ -208,7 +238,10 @@ func run33(c T33, o Obs) outcome33 {
 func genT33(r *kit.Rand, tier kit.Tier) T33 {
 	var c T33
 
-	switch r.Weighted(3, 2, 3) {
+	switch r.Weighted(3, 2, 3, 3) {
+	case 3:
+		n := enoc.GenNet(r, tier)
+		c.Net = &n
 	case 0:
 		m := emem.GenConfig(r, tier, emem.GenOpts{MaxOps: 40})
 		c.Mem = &m
@@ -251,6 +284,10 @@ func execT33(c T33, _ *kit.Env) kit.Outcome {
 		what := "mem"
 		if c.VM != nil {
 			what = "vm"
+		}
+
+		if c.Net != nil {
+			what = "net"
 		}
 
 		out.Violation = kit.Violate("observation", "C33:outcome-differs-with-observers["+what+"]", "with observers %+v attached the outcome differs from the bare run (bare vs observed): %s", c.Obs, d)
@@ -297,6 +334,13 @@ func shrinkT33(c T33) []T33 {
 			q.Steps = l
 			out = append(out, q)
 		}
+	} else if c.Net != nil {
+		for _, s := range enoc.ShrinkNet(*c.Net) {
+			s := s
+			q := c
+			q.Net = &s
+			out = append(out, q)
+		}
 	} else {
 		for _, s := range evm.ShrinkCfg(*c.VM) {
 			s := s
@@ -325,10 +369,10 @@ func shrinkT33(c T33) []T33 {
 func init() {
 	kit.Register(kit.Spec[T33]{
 		ID: "C33", Level: "exploration",
-		Rule: "the same seeded simulation (multi-level memory hierarchy, single agent under a pause/drain/reset/flush control script, or VM stack, some with control scripts) is executed bare (no hook at all on engine, ports or components) and with a generated non-empty set of observers: engine hook, port hooks, plain component hooks, component tracer, incoming/outgoing buffer tracing, busy/total/average/tag-count tracers, DB tracer on an in-memory recorder; " +
+		Rule: "the same seeded simulation (multi-level memory hierarchy, single agent under a pause/drain/reset/flush control script, VM stack, some with control scripts, or switched network built by the generic/mesh/PCIe/NVLink connectors) is executed bare (no hook at all on engine, ports or components) and with a generated non-empty set of observers: engine hook, port hooks, plain component hooks, component tracer, incoming/outgoing buffer tracing, busy/total/average/tag-count tracers, DB tracer on an in-memory recorder; " +
 			"the requesters' response logs (request, order, simulated time, kind, data), the final memory bytes of every touched address and the end time must be identical; distinct = observer set and outcome shape; non-trivial = >= 2 responses",
 		Assumptions: []string{"generated IDs are not compared (the property exempts them)", "the observed run carries the event cap; a run that hits it is inconclusive"},
-		Real:        []string{"tracing (api, tracers, buffer tracers, DB tracer)", "messaging ports and queueing buffers with hooks", "timing.SerialEngine with and without hooks", "mem/*, mem/vm/*"},
+		Real:        []string{"tracing (api, tracers, buffer tracers, DB tracer)", "messaging ports and queueing buffers with hooks", "timing.SerialEngine with and without hooks", "mem/*, mem/vm/*", "noc/networking/*"},
 		Stubs:       []string{"requesters", "control driver", "in-memory data recorder"},
 		FaultKinds:  []string{"observer-set-attached"},
 		Quick:       kit.Budget{Runs: 1200, WallS: 100},
